@@ -118,7 +118,7 @@ impl ProvenEqRaw {
             }
             Proof::Explicit(ExplicitProof(jus)) => {
                 let mut subdst = eq.side(/*src:*/ false, symm, graph);
-                subdst.apply_slot_map(&ctx.slot_map);
+                subdst.apply_slot_map(&mut ctx.slot_map);
                 let dst = ctx.head.replace_subexpr(&pos, subdst);
                 let step = Step {
                     dst: dst.clone(),
@@ -149,8 +149,11 @@ impl ProvenEqRaw {
 }
 
 impl<L: Language> FlatteningContext<L> {
+    // The slot names of different (sub)proofs are unrelated: the map relates the slots of the equation at hand
+    // to the slots of the term it is applied to, and nothing else.
     fn update_slot_map(&mut self, subsrc: &RecExpr<L>, pos: &Pos) {
         let subhead = self.head.subexpr(pos);
+        self.slot_map.clear();
         Self::update_slot_map_core(&mut self.slot_map, subhead, subsrc);
     }
 
@@ -180,9 +183,7 @@ impl<L: Language> FlatteningContext<L> {
                     child_idx += 1;
                 }
                 (SyntaxElem::Slot(h), SyntaxElem::Slot(s)) => {
-                    if h != s {
-                        map.insert(*s, *h);
-                    }
+                    map.insert(*s, *h);
                 }
                 _ => panic!("'FlatteningContext.update_slot_map_core' found distinct children."),
             }
@@ -213,21 +214,13 @@ impl<L: Language> RecExpr<L> {
         }
     }
 
-    fn apply_slot_map(&mut self, m: &HashMap<Slot, Slot>) {
+    // Slots that the source side does not mention (new on this side) get fresh names.
+    fn apply_slot_map(&mut self, m: &mut HashMap<Slot, Slot>) {
         for slot in self.node.all_slot_occurrences_mut().iter_mut() {
-            **slot = Self::map_slot(**slot, m);
+            **slot = *m.entry(**slot).or_insert_with(Slot::fresh);
         }
         for idx in 0..self.children.len() {
             Self::apply_slot_map(&mut self.children[idx], m);
-        }
-    }
-
-    // Important: This will loop if the slot map contains a cycle!
-    fn map_slot(s: Slot, m: &HashMap<Slot, Slot>) -> Slot {
-        if let Some(&new) = m.get(&s) {
-            Self::map_slot(new, m)
-        } else {
-            s
         }
     }
 }
